@@ -87,7 +87,7 @@ def literal_names(tname: str) -> List[str]:
 # symbolic single-column conditions  (tuples, jsonable)
 # ---------------------------------------------------------------------------
 def conditions(tname: str, level: str) -> List[Tuple]:
-    """level 'full': every alias x every literal; 'lean': aliases only with literal b; 'conj': a small spanning set."""
+    """level 'full': every alias x every literal; 'conj': a small spanning set for 2-column conjunctions."""
     L = literal_names(tname)
     first, mid = L[0], L[1]
     out: List[Tuple] = []
@@ -316,6 +316,7 @@ def layouts_1col(tname: str, tier: str) -> List[Tuple[Tuple[str, ...], ...]]:
         (),                                   # freshly created table, no snapshot
         (tuple(S),),                          # one file holding every symbol
         ((), (a, "N")),                       # an empty file
+        ((),),                                # nothing but an empty file
         (("N", "N"), (a, b, c)),              # an all-NULL file
         ((a, a), (b,), (c, "N", c)),
         ((c, b, a, "N", b),),                 # 5 rows: 3 batches of size 2
@@ -394,7 +395,9 @@ class Tbl:
         self.t._get_current_schema = lambda: sch  # type: ignore
 
     def table_class(self) -> str:
-        return "no_files" if not self.layout else "has_files"
+        if not self.layout:
+            return "no_files"
+        return "has_rows" if self.rows else "only_empty_files"
 
 
 # ---------------------------------------------------------------------------
@@ -433,11 +436,25 @@ def row_class(tb: Tbl, f: Tuple, k: int) -> str:
     return "&".join(cl)
 
 
+def sem_key(tb: Tbl, f: Tuple, k: int, problem: str) -> Dict[str, Any]:
+    """Key of a row-level disagreement with the reference.  In a conjunction an unexpected row is attributed to
+    the (first) conjunct that rejects it, so a single-column defect keeps its single-column key."""
+    conds = f
+    if problem == "unexpected_row" and len(f) > 1 and k in tb.rows:
+        resp = tuple((col, c) for col, c in f
+                     if eval_condition(tb.types["cd".index(col)], c, tb.rows[k][col]) in ("F", "N"))
+        if resp:
+            conds = resp[:1]
+    return {"part": "semantics", "op": filter_op(conds), "literal": "+".join(cond_literal_class(c) for _c, c in conds),
+            "row": row_class(tb, conds, k) if k in tb.rows else "unknown", "problem": problem}
+
+
 def check_filter(rep: Report, tb: Tbl, f: Tuple, cfgs: List[Tuple[str, bool, Optional[List[str]], str]]) -> None:
     types = tb.types
     fd = filter_dict(types, f)
     kind = filter_kind(f)
     op = filter_op(f)
+    op_api = op if len(f) == 1 else "conjunction"
     tkey = "+".join(types)
     base = {"types_": tkey}
     detail0 = {"types": types, "layout": _jl(tb.layout), "filter": _jl(f), "filter_dict": repr(fd)}
@@ -494,7 +511,7 @@ def check_filter(rep: Report, tb: Tbl, f: Tuple, cfgs: List[Tuple[str, bool, Opt
             st, res = run_api(tb.t, api, verify, proj, fd)
             rep.add("api_calls")
             if st != "raise":
-                rep.violation({"part": "api", "api": api, "verify": verify, "projection": pn, "op": op, "problem": "alias_accepted_here_rejected_by_scan", **base},
+                rep.violation({"part": "api", "api": api, "verify": verify, "projection": pn, "op": op_api, "problem": "alias_accepted_here_rejected_by_scan", **base},
                               {**detail0})
         return
 
@@ -508,14 +525,12 @@ def check_filter(rep: Report, tb: Tbl, f: Tuple, cfgs: List[Tuple[str, bool, Opt
         else:
             problem = "duplicate_row" if k in free else "unexpected_row"
         ok = False
-        rep.violation({"part": "semantics", "op": op, "literal": "+".join(cond_literal_class(c) for _c, c in f),
-                       "row": row_class(tb, f, k) if k in tb.rows else "unknown", "problem": problem, **base},
+        rep.violation({**sem_key(tb, f, k, problem), **base},
                       {**detail0, "row": repr(tb.rows.get(k)), "verdict": vd.get(k), "returned": repr(res0)[:400]})
     for k in must:
         if k not in k0:
             ok = False
-            rep.violation({"part": "semantics", "op": op, "literal": "+".join(cond_literal_class(c) for _c, c in f),
-                           "row": row_class(tb, f, k), "problem": "missing_row", **base},
+            rep.violation({**sem_key(tb, f, k, "missing_row"), **base},
                           {**detail0, "row": repr(tb.rows[k]), "verdict": vd[k], "returned": repr(res0)[:400]})
     if 0 < len(must) < len(tb.rows) or free:
         rep.nontrivial(("w", tkey, tb.layout, f))
@@ -567,7 +582,7 @@ def check_filter(rep: Report, tb: Tbl, f: Tuple, cfgs: List[Tuple[str, bool, Opt
                 tgt = c
                 rep.add("api_differences_attributed_to_simpler_configuration")
                 break
-        rep.violation({"part": "api", "api": tgt[0], "verify": tgt[1], "projection": tgt[2], "op": op, "row": diffs[tgt][1],
+        rep.violation({"part": "api", "api": tgt[0], "verify": tgt[1], "projection": tgt[2], "op": op_api, "row": diffs[tgt][1],
                        "problem": problem, **base}, detail)
 
 
@@ -586,8 +601,8 @@ def _jt(x: Any) -> Any:
 # ---------------------------------------------------------------------------
 # workers
 # ---------------------------------------------------------------------------
-def filters_1col(tname: str, tier: str) -> List[Tuple]:
-    return [(("c", c),) for c in conditions(tname, "full" if tier == "thorough" else "lean")]
+def filters_1col(tname: str) -> List[Tuple]:
+    return [(("c", c),) for c in conditions(tname, "full")]
 
 
 def filters_2col(t1: str, t2: str) -> List[Tuple]:
@@ -601,22 +616,22 @@ def filters_2col(t1: str, t2: str) -> List[Tuple]:
 
 
 def worker(payload: Tuple) -> Dict[str, Any]:
-    types, tier, seed, lays, chunk = payload
+    types, tier, seed, lays, chunk, depth, (si, sn) = payload
     types = list(types)
     rep = Report(PROP, tier, seed, "exploration")
     if len(types) == 1:
-        fl = filters_1col(types[0], tier)
-        level = "all" if tier == "thorough" else "cover"
-        cfgs = configs(["k", "c"], ["c"], level)
+        fl = filters_1col(types[0])
+        cfgs = configs(["k", "c"], ["c"], "all" if depth == "full_cross" else "cover")
     else:
         fl = filters_2col(*types)
         cfgs = configs(["k", "c", "d"], ["c", "d"], "cover")
-    rep.cov.setdefault("filters_per_table", {})["+".join(types)] = len(fl)
-    rep.cov.setdefault("api_configurations_per_filter", {})["+".join(types)] = len(cfgs)
+    rep.setmax(f"max_filters_per_table:{'+'.join(types)}:{depth}", len(fl))
+    rep.setmax(f"max_api_configurations_per_filter:{'+'.join(types)}:{depth}", len(cfgs))
     for n, layout in enumerate(lays):
-        tb = Tbl(types, layout, f"{'-'.join(types)}-{chunk}-{n}")
-        rep.add("tables")
-        for f in fl:
+        tb = Tbl(types, layout, f"{'-'.join(types)}-{chunk}-{n}-{si}")
+        if si == 0:
+            rep.add("tables")
+        for f in fl[si::sn]:  # big tables: the filter catalogue is split over sn workers
             check_filter(rep, tb, f, cfgs)
             rep.add("table_filter_pairs")
     return rep.part()
@@ -644,17 +659,25 @@ def run(tier: str, seed: int) -> Report:
     payloads: List[Tuple] = []
     types = QUICK_TYPES if tier == "quick" else ALL_TYPES
     for tn in types:
+        curated = layouts_1col(tn, "quick")
         lays = layouts_1col(tn, tier)
-        per = 1 if tier == "quick" else 2
-        for c in range(0, len(lays), per):
-            payloads.append(((tn,), tier, seed, lays[c:c + per], c))
+        for c, lay in enumerate(lays):
+            # thorough: the curated layouts get every alias x literal and the full API x projection cross;
+            # the enumerated 1-file multisets / file pairs get the quick catalogue
+            deep = tier == "thorough" and lay in curated  # full API x projection cross
+            if deep:
+                for si in range(2):
+                    payloads.append(((tn,), tier, seed, [lay], c, "full_cross", (si, 2)))
+            else:
+                payloads.append(((tn,), tier, seed, [lay], c, "cover", (0, 1)))
     pairs = PAIRS[:1] if tier == "quick" else PAIRS
     for t1, t2 in pairs:
         lays2 = layouts_2col(t1, t2)
         if tier == "quick":
             lays2 = lays2[2:]
         for c, l2 in enumerate(lays2):
-            payloads.insert(0, ((t1, t2), tier, seed, [l2], c))
+            for si in range(6):
+                payloads.insert(0, ((t1, t2), tier, seed, [l2], c, "conj", (si, 6)))
     if payloads:
         r = seed % len(payloads)
         payloads = payloads[r:] + payloads[:r]
@@ -665,14 +688,14 @@ def run(tier: str, seed: int) -> Report:
     rep.cov["types_1col"] = types
     rep.cov["type_pairs_2col"] = ["+".join(p) for p in pairs]
     rep.cov["rule"] = (
-        "column type(s) x table layout catalogue (no files; one file with every symbol; empty file; all-NULL file; 3 files; every 1-row file"
-        + ("; every 1-file multiset of size 2; every pair of 0/1-row files" if tier == "thorough" else "")
-        + "; 2-column tables: cross product of {NULL,a,b(,NaN)}^2 in 1 / 3 / per-value files plus an empty and an all-NULL file) x symbolic filter catalogue "
-        "(" + ("every alias x every literal" if tier == "thorough" else "canonical operators x every literal, every alias with one literal")
-        + "; {c: v}; in/not_in x {empty, singleton, NULL-only, NULL-containing, 2 values, all values(, NaN)}; between x every ordered literal pair; "
-        "is_null/is_not_null aliases; NULL literals; 11 malformed shapes; 2-column conjunctions of 17-19 conditions per column) x API configurations "
-        "(scan seq/parallel=2, scan_batches 1/2/10000, iter_records; verify on/off; "
-        + ("every projection" if tier == "thorough" else "all columns and a projection without the filter column for every API, the other projections for scan and scan_batches_2")
+        "column type(s) x table layout catalogue (no files; only an empty file; one file with every symbol; empty file + rows; all-NULL file; "
+        "3 files; 5-row file; every 1-row file" + ("; every 1-file multiset of size 2; every pair of 0/1-row files" if tier == "thorough" else "")
+        + "; 2-column tables: cross product of {NULL,a,b(,NaN)}^2 in 1 / 3 / per-value files plus an empty and an all-NULL file) x symbolic filter "
+        "catalogue (every operator alias x every literal; {c: v}; in/not_in aliases x {empty, singleton, NULL-only, NULL-containing, 2 values, all "
+        "values(, NaN sets)}; between x every ordered literal pair; is_null/is_not_null aliases; NULL literals; 11 malformed shapes; 2-column "
+        "conjunctions of 17-19 conditions per column) x API configurations (scan seq/parallel=2, scan_batches 1/2/10000, iter_records; verify on/off; "
+        "projections: every API with all columns and with a projection lacking the filter column, scan and scan_batches_2 with every projection"
+        + ("; the curated 1-column layouts with the full API x projection cross" if tier == "thorough" else "")
         + ").  A (table, filter) pair is non-trivial when the reference says a proper non-empty subset of the rows must match, when a row's verdict is "
         "unspecified (cross-API comparison only), or when the filter is malformed and the table has files; distinct = (types, layout, filter)")
     rep.assumptions += [
